@@ -1679,6 +1679,31 @@ func (r *e2Run) stress(ctx context.Context) {
 			r.setLastEnded(rep.Sessionid)
 			r.count("stress_early_readers", 1)
 		}
+		bridged := func() {
+			// requests of a bridge (X-Bridge-Auth set, here with a value that is not configured, so nothing
+			// else changes) while a configuration update is applied
+			var inner sync.WaitGroup
+			inner.Add(1)
+			go func() { defer inner.Done(); cfgWrite() }()
+			nd := r.nodes[node]
+			for k := 0; k < 6; k++ {
+				inner.Add(1)
+				go func(k int) {
+					defer inner.Done()
+					for j := 0; j < 6 && ctx.Err() == nil && nd.aliveA.Load(); j++ {
+						rctx, cancel := context.WithTimeout(ctx, 30*time.Millisecond)
+						req, _ := http.NewRequestWithContext(rctx, "GET", "https://"+nd.addr+"/robustirc/v1/"+own+"/messages?lastseen=0.0", nil)
+						req.Header.Set("X-Session-Auth", ownAuth)
+						req.Header.Set("X-Bridge-Auth", "not-a-configured-bridge")
+						e2Serve(nd.api, &e2StreamWriter{hdr: http.Header{}, on: func(m *robust.Message) {}}, req)
+						cancel()
+						time.Sleep(time.Duration(1+r.choice("stress/bridgegap", 60)) * time.Millisecond)
+					}
+				}(k)
+			}
+			inner.Wait()
+			r.count("stress_bridged_groups", 1)
+		}
 		metrics := func() {
 			// what a metrics scrape evaluates: the accessors behind main()'s irc_sessions, irc_session_limit,
 			// irc_channels and irc_channel_limit gauges, on the state of the node the group talks to (the gauges
@@ -1753,7 +1778,7 @@ func (r *e2Run) stress(ctx context.Context) {
 		for k := 0; k < n; k++ {
 			nops := 20
 			if r.prop == "C20" {
-				nops = 26
+				nops = 28
 			}
 			opk := r.choice("stress/op", nops)
 			if d := os.Getenv("VERIF_DBG_NOOP"); d != "" && strings.Contains(d, fmt.Sprintf(",%d,", opk)) {
@@ -1766,6 +1791,8 @@ func (r *e2Run) stress(ctx context.Context) {
 				launch(servicesLink)
 			case 24, 25:
 				launch(earlyReader)
+			case 26, 27:
+				launch(bridged)
 			case 17:
 				launch(stale)
 			case 18, 19:
